@@ -146,6 +146,25 @@ CLAIMED = {
              '(incl. the empty graph after the D14 repair). Lane: histories aimed at time violations, plain graphs with '
              'violating edges converted, random lagged DAGs.',
         note=_COMMON_NOTE + 'networkx tie-breaking is not modelled: the default order is validated by predicate.'),
+    'C14': dict(
+        technique='Lean 4 proof (minimal-graph loop characterised against the template set on canonical names; fixed point; '
+                  'test = equality with the recomputed minimal graph) with differential correspondence on template sets',
+        text='Theorems under WF + canonical names + consistent templates: get_minimal_graph never raises; its edges are exactly '
+             'one per template placed with destination at lag 0 and source at minus the time difference; its nodes are the '
+             'template endpoints plus each remaining variable once at lag 0; metadata and variable types are those of the '
+             'variable / template (VarConsistent); the result again satisfies the hypotheses with the same templates and '
+             'variables and applying the operation again gives the same nodes and typed edges; is_minimal_graph is the '
+             'transcribed equality test. Open (kept as statements): idempotence as equality of full states incl. attributes; '
+             'the matrix view belongs to C08 (lagged entry law).',
+        note=_COMMON_NOTE + 'partial: minimal_idem as state equality and "is_minimal_graph(minimal graph) = true" are stated, not yet proved.'),
+    'C17': dict(
+        technique='Lean 4 proof (collapse loop invariant over the sorted edge list: total on every time-series DAG, nodes = '
+                  'variables, edge cases characterised) with differential correspondence on lagged DAGs with forced feedback',
+        text='Theorems under WF + canonical names + is_dag: get_summary_graph succeeds and returns a well-formed plain graph '
+             'with the graph metadata; its nodes are exactly the variables (floating ones included); no self-link; two '
+             'distinct variables are adjacent iff some edge of the input links them; X -> Y iff links go only from X to Y; '
+             'bidirected iff links go both ways; no other type. The repaired code (fix: commit for D11) is what is modelled.',
+        note=_COMMON_NOTE),
     'C18': dict(
         technique='Lean 4 proof (confounder search transcribed with cumulative pruning: subset of common ancestors, symmetry, '
                   'input refusal; sufficiency refuted by a proved counter-example) with differential correspondence, exhaustive '
@@ -180,7 +199,7 @@ CLAIMED = {
 _P = 'check under construction in this round (model/lane/theorems not yet integrated); not claimed until its central theorem is proved and its lane is clean'
 _P2 = ('model (lean/CG/Model/TS.lean) and lane exist and are clean (./check runs), but the property theorems are still being '
        'proved; not claimed until the central theorem is proved')
-NOT_CLAIMED = {k: _P2 for k in ['C14', 'C15', 'C16', 'C17']}
+NOT_CLAIMED = {k: _P2 for k in ['C15', 'C16']}
 
 try:
     import subprocess
